@@ -5,7 +5,8 @@
   run, to render one and the same engine-erased step list (`checkRouter`, property C12: five-way
   comparison of the go/ast extractions plus comparison with `handlerOf`), the five `authorize()` copies
   have the same shape, and the five URL converters denote the same set of served paths up to the
-  `{x}`/`:x` spelling.  Given that, equal framework inputs give equal traces (`interchangeable`).
+  `{x}`/`:x` spelling.  Given that, equal framework inputs give equal outcomes
+  (`Serve.interchangeable_of_accessors_agree`).
   What is NOT provable here: `AccessorsAgree` — that gin, echo, mux, chi and fiber hand the handler the
   same raw strings and presence bits and dispatch the same requests; that is what the dynamic five-way
   `rig` stream samples.
@@ -15,16 +16,12 @@ import Gleece.Properties.C03
 namespace Gleece.Router
 open Gleece.IR
 
-/-- the handler an engine's templates render (engine-erased atoms): the same for all engines -/
-def handlerFor (_e : Engine) (c : Controller) (r : Route) : List Step := handlerOf c r
-
-theorem skeleton_uniform (e₁ e₂ : Engine) (c : Controller) (r : Route) : handlerFor e₁ c r = handlerFor e₂ c r := rfl
-
-/-- **Interchangeable**: with the same authorization callback behaviour (and the same values handed over
-    by the frameworks, which the model does not distinguish), the traces of any two engines coincide —
-    same checks asked, same refusal or same controller steps. -/
-theorem interchangeable (e₁ e₂ : Engine) (cb : Callback) (c : Controller) (r : Route) :
-    exec cb (handlerFor e₁ c r) = exec cb (handlerFor e₂ c r) := rfl
+/- The handler skeleton has no engine parameter in this model (`handlerOf c r`): that all five template sets
+   render it is NOT a Lean statement — it is the five-way comparison of the go/ast extractions of the rendered
+   files with each other and with `handlerOf` (`checkRouter`, property C12) on every run.  The Lean content of
+   "interchangeable" is `Serve.interchangeable_of_accessors_agree` (Properties/Serve.lean): the outcome of a
+   request is ONE function of the authorization callback and of what the framework hands over; two engines
+   that deliver the same raw values for a route's parameters answer identically, for every callback. -/
 
 /-- path parameters are spelled `:x` on three engines and `{x}` on two; apart from that the registered
     template is the same function of the annotated routes -/
